@@ -371,6 +371,9 @@ const LOCAL_SITES: [&str; 4] = ["write.unlocked", "batch.unlocked", "rotate.unlo
 /// sites a property is about (the unfocused variant of the same body keeps every site at a lower bound).
 pub static FOCUS: Mutex<Option<Vec<&'static str>>> = Mutex::new(None);
 
+/// When set, acquiring a free lock is a scheduling point too (no fast path). Bodies tagged "[all-locks]".
+pub static ALL_LOCKS: std::sync::atomic::AtomicBool = std::sync::atomic::AtomicBool::new(false);
+
 fn h_point(site: &'static str) {
     if LOCAL_SITES.contains(&site) {
         return;
@@ -390,7 +393,7 @@ fn h_block(probe: &(dyn Fn() -> bool + Sync), site: &'static str) {
     // this acquisition is local, so "another thread acquires first" is the schedule that preempts at that point.
     // (the journal lock is the exception: it orders every write, and a seeded change showed that shared state can
     // be touched right before it — so its acquisition is always a scheduling point)
-    if site != "journal.lock" && probe() {
+    if site != "journal.lock" && !ALL_LOCKS.load(std::sync::atomic::Ordering::Relaxed) && probe() {
         return;
     }
     // lifetime erasure: the closure lives on the parked thread's stack for as long as it is parked
